@@ -12,7 +12,8 @@ behaviour exactly (impl == model) and (b) the finding's match rule — a predica
 in Python and, independently, in Lean (WfState/Class.lean; the two are compared on every case) — holds.  A disagreement
 on a workflow inside the class (`inClass`: no shared origins, no later-upstream-through-two-fields, no combiner that
 removes all inherited axes of a node with an own splitter, no partially combined zip feeding another node, no node name that
-is a substring of a foreign combiner key) is always a VIOLATION.
+is a substring of a foreign combiner key, no combined state whose keys `State.splits` lists out of nesting order) is always a
+VIOLATION.
 """
 
 from __future__ import annotations
@@ -46,7 +47,7 @@ META = {
     "connected state's history meets a connected root (C03_history_noop); with duplicate-free keys the code's group selection "
     "by dictionary inclusion equals the reference's selection by coordinate restriction (C03_group_test).  (3) Kernel-evaluated "
     "witnesses show the model of the "
-    "code differs from the reference on the diamond (|A|² jobs, D2) and on six further shapes, so C03_full_statement is "
+    "code differs from the reference on the diamond (|A|² jobs, D2) and on seven further shapes, so C03_full_statement is "
     "stated and refuted for the model, not claimed.  NOT proved: Model.run = Spec.run for the rest of the empirical class "
     "(combiners, scalar splitters, shared origins the mechanism happens to handle) — there the composition is TESTED: every "
     "generated workflow (≤ 5 nodes; chain, fan-in, "
@@ -89,6 +90,7 @@ OBLIGATIONS = [
         "C03_witness_comb_all_prev",
         "C03_witness_later_multi",
         "C03_witness_name_clash",
+        "C03_witness_key_order",
         "C03_full_statement_false",
         "C03_no_shared_origin_not_enough",
         "C03_workflow_Simple_partial",
@@ -118,6 +120,39 @@ CORPUS = core.VERIF / "corpus" / "wfstate"
 
 def _lazy_ups(nd):
     return [(f, nd["in"][f]["n"]) for f in F5 if f in nd["in"] and "n" in nd["in"][f]]
+
+
+def _sh_leaves(t):
+    return [t] if isinstance(t, str) else _sh_leaves(t[0]) + _sh_leaves(t[1])
+
+
+def _sh_remove(t, drop):
+    """Shape of a splitter with the dropped axes removed (`None`: nothing left)."""
+    if isinstance(t, str):
+        return None if drop(t) else t
+    l, r = _sh_remove(t[0], drop), _sh_remove(t[1], drop)
+    if l is None:
+        return r
+    if r is None:
+        return l
+    return (l, r)
+
+
+def _sh_keys(t, ks=None):
+    """The key list `State.splits` builds for a splitter of this shape (mirror of `Sh.keys` in WfState/Class.lean): an
+    unprocessed left operand of an already processed right operand goes in FRONT of all keys collected so far."""
+    if ks is None:
+        return [t] if isinstance(t, str) else _sh_keys(t, [])
+    if isinstance(t, str):
+        return ks
+    l, r = t
+    if isinstance(l, str) and isinstance(r, str):
+        return ks + [l, r]
+    if isinstance(l, str):
+        return [l] + _sh_keys(r, ks)
+    if isinstance(r, str):
+        return _sh_keys(l, ks) + [r]
+    return _sh_keys(r, _sh_keys(l, ks))
 
 
 def analyse(case) -> dict:
@@ -153,7 +188,17 @@ def analyse(case) -> dict:
         hist = [name] if own else []
         for u, _ in ups:
             hist += [h for h in infos[u]["hist"] if h not in hist]
-        infos[name] = dict(ups=ups, upAxes=up_axes, own=own, comb=comb, fin=fin, hist=hist)
+        # shape (nesting) of the final splitter: the upstream shapes in connection order, then the own part; a zipped pair
+        # contributes both fields
+        own_shape = None
+        if sp:
+            own_shape = (f"{name}.{sp[1]}", f"{name}.{sp[2]}") if sp[0] in ("inner", "outer") else f"{name}.{sp[0]}"
+        full = None
+        for t in [infos[u]["shape"] for u, _ in ups] + [own_shape]:
+            full = t if full is None else (full if t is None else (full, t))
+        shape = None if full is None else _sh_remove(full, lambda a: alias.get(a, a) in comb)
+        mis = bool(nd.get("combine")) and shape is not None and _sh_keys(shape) != _sh_leaves(shape)
+        infos[name] = dict(ups=ups, upAxes=up_axes, own=own, comb=comb, fin=fin, hist=hist, shape=shape, misordered=mis)
     return {"infos": infos, "alias": alias}
 
 
@@ -189,9 +234,11 @@ def flags(case) -> dict:
         "partialZipFeeds": any(partial_zip(nd) and nd["name"] in consumers for nd in case["nodes"]),
         # State.current_combiner tests `self.name in comb` (substring): a key of another node that contains this node's name
         "nameClash": any(nd["name"] in c and not c.startswith(nd["name"] + ".") for nd in case["nodes"] for c in nd.get("combine") or []),
+        # State.splits lists the keys of a combined state in another order than its index tuples are nested (D46)
+        "keyOrder": any(i["misordered"] for i in infos.values()),
     }
     fl = {k: bool(v) for k, v in fl.items()}
-    fl["inClass"] = not (fl["shared"] or fl["laterMulti"] or fl["combAllPrev"] or fl["partialZipFeeds"] or fl["nameClash"])
+    fl["inClass"] = not (fl["shared"] or fl["laterMulti"] or fl["combAllPrev"] or fl["partialZipFeeds"] or fl["nameClash"] or fl["keyOrder"])
     return fl
 
 
@@ -237,12 +284,18 @@ def attribute(fl: dict, kind: str) -> str | None:
             return "D31" if fl["dropsRoot"] else ("D36" if fl["sharedComb"] else "D2")
     if fl["laterMulti"] and kind in ("wrongvals", "morejobs"):
         return "D38"
+    if fl["keyOrder"] and kind in ("KeyError", "wrongvals", "IndexError"):
+        # keys_final of a combined state disagree with its index tuples: the tuple looked up in ind_map is a permutation
+        # (KeyError when it is not a valid tuple; otherwise wrong final index dictionaries downstream)
+        return "D46"
     if fl["partialZipFeeds"]:
         return "D29"
     if fl["combAllPrev"]:
         return "D37"
     if fl["laterMulti"]:
         return "D38"
+    if fl["keyOrder"]:
+        return "D46"
     return None
 
 
@@ -780,7 +833,7 @@ def run_cases(ctx, cases, label="generated"):
         ctx.count("class:in" if fl["inClass"] else "class:outside")
         ctx.count(f"impl:{kind}")
         if not fl["inClass"]:
-            for k2 in ("shared", "laterMulti", "combAllPrev", "partialZipFeeds", "nameClash"):
+            for k2 in ("shared", "laterMulti", "combAllPrev", "partialZipFeeds", "nameClash", "keyOrder"):
                 if fl[k2]:
                     ctx.count(f"outside:{k2}")
         # density of the node kind the state machinery is most delicate for
